@@ -102,6 +102,7 @@ class Wsdl11(XmlSchema):
 
         self.port_type_dict = {}
         self.service_elt_dict = {}
+        self.binding_dict = {}
 
         self.root_elt = None
         self.service_elt = None
@@ -150,6 +151,7 @@ class Wsdl11(XmlSchema):
         # nodes of an earlier (maybe failed) build belong to another tree
         self.port_type_dict = {}
         self.service_elt_dict = {}
+        self.binding_dict = {}
 
         self.build_schema_nodes()
 
@@ -510,14 +512,20 @@ class Wsdl11(XmlSchema):
         if len(port_type_list) > 0:
             for port_type_name in port_type_list:
 
-                # create binding nodes
-                binding = SubElement(root, WSDL11("binding"))
-                binding.set('name', self._get_binding_name(port_type_name))
-                binding.set('type', '%s:%s'% (pref_tns, port_type_name))
+                # create binding nodes. like port types, a binding is shared
+                # by the services that list the same port type.
+                binding_name = self._get_binding_name(port_type_name)
+                binding = self.binding_dict.get(binding_name)
+                if binding is None:
+                    binding = SubElement(root, WSDL11("binding"))
+                    binding.set('name', binding_name)
+                    binding.set('type', '%s:%s'% (pref_tns, port_type_name))
 
-                transport = SubElement(binding, input_binding_ns("binding"))
-                transport.set('style', 'document')
-                transport.set('transport', self.interface.app.transport)
+                    transport = SubElement(binding, input_binding_ns("binding"))
+                    transport.set('style', 'document')
+                    transport.set('transport', self.interface.app.transport)
+
+                    self.binding_dict[binding_name] = binding
 
                 for m in service.public_methods.values():
                     if m.port_type == port_type_name:
